@@ -29,7 +29,10 @@ META = {
 
 MODEL = ["theories/Sni/RouteCorr.vo"]
 PROOFS = ["theories/Props/C02.vo"]
-STATEMENT_FILES = ["theories/Props/C02.v", "theories/Sni/RouteGen.v"]
+STATEMENT_FILES = ["theories/Props/C02.v", "theories/Sni/RouteGen.v", "theories/Sni/CodeRefine.v"]
+# Go bodies translated to Gallina on every run (gen/gotrans.go -> Gen/CodeSni.v) and proved equal to the model
+# for all inputs (Sni/CodeRefine.v, C02_code_*); net.ParseIP is a Section variable.
+SEMANTIC_TIE = ["sniproxy.isRejectedDomain"]
 
 CODE = {"nolookup": 1, "err": 2, "home": 3, "notfound": 5, "forward": 6, "endpoint": 7}
 
@@ -312,6 +315,8 @@ def run(ck):
         ck.discharged = list(ck.obligations)
     if ck.thorough and proofs_ok:
         ck.coqchk(["Verif.Props.C02"])
+    ck.code_cex("Sni", force=not proofs_ok)
+    ck.coverage["semantic_tie"] = SEMANTIC_TIE
 
     binp = ck.build_harness("c02")
     cases = []
@@ -409,6 +414,8 @@ def run(ck):
                     "harness c02 vs vm_compute of Sni/RouteCorr.v + e2e oracle)",
         trusted=["Coq 8.16.1 kernel + vm_compute",
                  "translator gen/sni_stream.go (isRejectedDomain steps, suffix table, hostConn/Server.dial order, bodies)",
+                 "translator gen/gotrans.go + Lib/GoLib.v (Go body -> Gallina, proved equal to the model for all "
+                 "inputs: %s)" % ", ".join(SEMANTIC_TIE),
                  "harness/cmd/c02 + harness/cmd/c01/e2e + sniproxy/verif_stream.go + checks/c02.py comparison",
                  "modelled not verified: sync.Mutex atomicity of the three tables, Go select, net.ParseIP (parameter)"],
         rule="seeded generation (splitmix64): route = a real ClientHello through hostConn into Server.dial over a name "
